@@ -39,7 +39,7 @@ pub struct SaslTransport { pub sent: Ghost<Seq<sasl::Frame>>, pub client_sasl_ok
 pub struct LengthDelimited {}
 pub struct ProtocolHeaderCodec {}
 impl ProtocolHeaderCodec { pub fn new() -> (r: Self) { ProtocolHeaderCodec {} } }
-pub struct IoHalf { pub history: Ghost<Seq<sasl::Frame>>, pub received: Ghost<Seq<u8>> }
+pub struct IoHalf { pub history: Ghost<Seq<sasl::Frame>>, pub received: Ghost<Seq<u8>>, pub client_sasl_ok: Ghost<bool> }
 pub struct FramedW { pub history: Ghost<Seq<sasl::Frame>> }
 pub struct FramedR { pub history: Ghost<Seq<sasl::Frame>>, pub received: Ghost<Seq<u8>>, pub unread: Ghost<Seq<u8>>, pub client_sasl_ok: Ghost<bool> }
 pub struct FramedWrite {}
@@ -47,7 +47,7 @@ pub struct FramedRead {}
 impl FramedWrite { #[verifier::external_body] pub fn new(io: IoHalf, c: ProtocolHeaderCodec) -> (r: FramedW) ensures r.history == io.history { unimplemented!() } }
 impl FramedRead {
     #[verifier::external_body]
-    pub fn new(io: IoHalf, c: ProtocolHeaderCodec) -> (r: FramedR) ensures r.history == io.history, r.received == io.received, r.unread@ == Seq::<u8>::empty() { unimplemented!() }
+    pub fn new(io: IoHalf, c: ProtocolHeaderCodec) -> (r: FramedR) ensures r.history == io.history, r.received == io.received, r.unread@ == Seq::<u8>::empty(), r.client_sasl_ok == io.client_sasl_ok { unimplemented!() }
 }
 impl FramedW {
     #[verifier::external_body]
@@ -59,7 +59,7 @@ impl FramedR {
     #[verifier::external_body]
     pub fn map_decoder<F: FnOnce(LengthDelimited) -> ProtocolHeaderCodec>(self, f: F) -> (r: FramedR) ensures r.history == self.history, r.received == self.received, r.unread == self.unread, r.client_sasl_ok == self.client_sasl_ok { unimplemented!() }
     #[verifier::external_body]
-    pub fn into_inner(self) -> (r: IoHalf) ensures r.history == self.history, r.received == self.received { unimplemented!() }
+    pub fn into_inner(self) -> (r: IoHalf) ensures r.history == self.history, r.received == self.received, r.client_sasl_ok == self.client_sasl_ok { unimplemented!() }
 }
 impl SaslTransport {
     #[verifier::external_body]
